@@ -11,7 +11,7 @@ ALL = ["C%02d" % i for i in range(1, 18)]
 CHECKS = {
  "C01": ("exploration",
   "runtime monitoring: reference-model oracle over decoded package payloads (generated configs + source trees, 5 formats, independent decoders)",
-  "Every generated case is built by the real packagers and every payload entry (kind, bytes, stored mode field, owner, group, file mtime, link target) is compared with a reference plan derived from the documentation; formats are also compared with each other. Held on the K cases of the run; no claim beyond the generated space.",
+  "Every generated case is built by the real packagers and every payload entry (kind, bytes, stored mode field, owner, group, file mtime, link target) is compared with a reference plan derived from the documentation; formats are also compared with each other. Half of the cases build every format from ONE parsed configuration (rotating order), the other half from a fresh parse per format; some cases have sources owned by canary numeric ids (must not appear in any package) and are rebuilt after the sources changed. Held on the K cases of the run; no claim beyond the generated space.",
   "Trusts the harness decoders (raw tar walker, ar, gzip splitter, rpm header+cpio parser, klauspost zstd / ulikunitz xz decoders) and the generator's by-construction knowledge of glob match sets. Corners listed under 'not explored' in DESIGN.md section 4/C01 are outside the claim.",
   "4/C01"),
  "C02": ("exploration",
@@ -21,7 +21,7 @@ CHECKS = {
   "4/C02"),
  "C03": ("exploration",
   "runtime monitoring: recomputation oracle - every stored digest, checksum and size is recomputed by the harness from the decoded shipped bytes (incl. rebuild after in-place source change)",
-  "All digests/sizes a package states about itself are recomputed without nfpm code from the bytes actually shipped, over generated payloads biased to block-size boundaries and all compressions, including a second build in the same process after sources changed.",
+  "All digests/sizes a package states about itself are recomputed without nfpm code from the bytes actually shipped, over generated payloads biased to block-size boundaries and all compressions, including a second build in the same process after sources changed, several packages built at the same time into slowly draining destinations (GOMAXPROCS 1 and N), and the nfpm binary rebuilding to a target that holds a longer file.",
   "Trusts the harness decoders and Go's crypto hashes. rpm sig tag 1007 accepted as cpio length or sum of file sizes; md5sums names with or without './'.",
   "4/C03"),
  "C04": ("exploration",
@@ -36,12 +36,12 @@ CHECKS = {
   "4/C08"),
  "C06": ("fault_enumeration",
   "runtime monitoring with fault injection: fault-injecting io.Writer at every write index (sticky error, short write, one-shot), source/script/changelog/key references removed one at a time, failing sign callbacks, invalid-setting classes, and the real nfpm binary against /dev/full (strace ENOSPC injection in thorough)",
-  "For every generated config x format x signed/unsigned the clean run's N writes are counted and EVERY k in [0,N) is replayed with three fault variants (exhaustive over k); every file reference is removed one at a time; every invalid-setting class and signer failure is injected; the CLI must exit non-zero, print the cause and leave nothing at the target. Package must return non-nil whenever the fault was reached.",
+  "For every generated config x format x signed/unsigned the clean run's N writes are counted and EVERY k in [0,N) is replayed with three fault variants (exhaustive over k); every file reference is removed one at a time; every invalid-setting class and signer failure is injected; every source is also replaced by a unix socket; the CLI must exit non-zero, print the cause and leave nothing at the target. Package must return non-nil whenever the fault was reached.",
   "A write fault is an error return (full or short count); writers that break the io.Writer contract are out of scope. Exhaustive over write indices of the configs that were generated, not over configs.",
   "4/C06"),
  "C07": ("exploration",
   "runtime monitoring: differential replay of the same build under varied clock, GOMAXPROCS, timezone, process, path spelling and mtime source, with a timestamp monitor over every decoded time field",
-  "Each (case, format) is built 9 times in-process (repeat, GOMAXPROCS 1..16, across a wall-clock second) and 5-7 times through the nfpm binary (TZ, GOMAXPROCS, relative/absolute paths, YAML mtime vs SOURCE_DATE_EPOCH incl. 0); all outputs must be byte-identical and every stored timestamp must come from the configuration or the sources.",
+  "Each (case, format) is built 9 times in-process (repeat, GOMAXPROCS 1..16, across a wall-clock second) and 5-7 times through the nfpm binary (TZ, GOMAXPROCS, relative/absolute paths, YAML mtime vs SOURCE_DATE_EPOCH incl. 0, after 2038 and before 1970, each twice a second apart); history scenarios (failed builds in between, a dateless changelog entry after a second, rebuilding from the same parsed configuration after source metadata changed); all outputs must be byte-identical and every stored timestamp must come from the configuration or the sources.",
   "Package mtimes are drawn from 2001-2037, far from the build clock, so a clock leak cannot coincide with an allowed value. gzip MTIME 0 and pgzip's constant 2288912640 both mean 'unset'.",
   "4/C07"),
  "C05": ("exploration",
@@ -56,7 +56,7 @@ CHECKS = {
   "4/C09"),
  "C10": ("exploration",
   "runtime monitoring: signature extraction + independent verification (go-crypto, crypto/rsa, gpg, openssl) over verifier bytes recomputed from stored members; recording sign callbacks; injected signer failures checked with errors.As / errors.Is",
-  "Signatures of really built deb (debsign all types, dpkg-sig), rpm and apk packages are verified with the matching public key over the bytes the format's verifier uses, recomputed from the stored members, for all key kinds shipped with the repository and for callbacks (which must receive exactly those bytes); every failure injection must yield an error identifiable as *nfpm.ErrSigningFailure that still wraps the signer's error.",
+  "Signatures of really built deb (debsign all types, dpkg-sig), rpm and apk packages are verified with the matching public key over the bytes the format's verifier uses, recomputed from the stored members, for all key kinds shipped with the repository, generated RSA-2048/3072/4096 keys (gpg must accept the armor), keys locked with odd passphrases, rotated key files, SOURCE_DATE_EPOCH set while signing, empty key ids, and for callbacks (which must receive exactly those bytes); every failure injection must yield an error identifiable as *nfpm.ErrSigningFailure that still wraps the signer's error.",
   "Keys are the repository's test keys. gpg and openssl are used when installed (they are in this image); the harness-owned verification always runs.",
   "4/C10"),
  "C11": ("exploration",
@@ -71,17 +71,17 @@ CHECKS = {
   "4/C12"),
  "C13": ("exploration",
   "runtime monitoring: reflective reference-merge oracle over Config.Get for every overridable leaf x format x placement (exhaustive, leaves discovered by reflection), random combinations, every Get order, before/after snapshots of base settings, package-level confirmation",
-  "For every leaf of nfpm.Overridables a configuration is marshalled from nfpm's own types, parsed, and Get(g) for all formats is compared leaf-by-leaf with a reference merge of an untouched parse; base settings and override blocks must stay unchanged; random multi-block combinations are checked under all Get orders and by decoding built packages; Validate must reject override keys without a packager.",
+  "For every leaf of nfpm.Overridables a configuration is marshalled from nfpm's own types, parsed, and Get(g) for all formats is compared leaf-by-leaf with a reference merge of an untouched parse; base settings and override blocks must stay unchanged; random multi-block combinations are checked under all Get orders and by decoding built packages; all formats are built from one parsed configuration in sampled (quick) / all 120 (thorough) orders and compared with fresh-parse builds; override lists whose items expand to nothing; CLI packager spellings; Validate must reject override keys without a packager.",
   "The reference merge encodes: scalars replaced iff non-zero, lists wholesale iff non-empty, nested blocks field by field, maps key by key (non-empty values), pointers by pointee. Empty-valued override map entries and null override blocks are not explored.",
   "4/C13"),
  "C14": ("exploration",
   "runtime monitoring: grammar-generated version strings against a by-construction split oracle on nfpm.WithDefaults; ordering oracles (harness Debian algorithm cross-checked with dpkg --compare-versions, harness port of rpmvercmp + EVR) applied to version strings decoded from built packages",
-  "Strings are assembled from the semver grammar so the expected split is known by construction; near-misses must stay verbatim; prerelease < release, numeric order and epoch order are checked on versions decoded from really built deb, ipk and rpm packages under the package managers' own comparison algorithms.",
+  "Strings are assembled from the semver grammar so the expected split is known by construction; near-misses must stay verbatim (also when the version arrives through the environment mapping; numbers up to 2^64-1); prerelease < release, numeric order and epoch order are checked on versions decoded from really built deb, ipk and rpm packages under the package managers' own comparison algorithms.",
   "Leading-zero shapes are not generated. dpkg is used when installed; the harness implementations always run. Epochs beyond dpkg's C int are only used for rpm.",
   "4/C14"),
  "C15": ("exploration",
   "runtime monitoring: ConventionalFileName vs conventional name composed from metadata decoded out of Package on the same settings object; byte comparison name-then-package vs package; the real nfpm binary with every target spelling",
-  "Generated name/version/arch combinations x 5 formats: the proposed file name must equal the name composed from the decoded metadata, end in the conventional extension and not alter the package; the CLI is run with target = file, directory, symlinked directory, blank, with and without -p, and with .deb/.rpm/.apk/.ipk extensions.",
+  "Generated name/version/arch combinations x 5 formats: the proposed file name must equal the name composed from the decoded metadata, end in the conventional extension and not alter the package; the CLI is run with target = file, directory, symlinked directory, blank, with and without -p, with .deb/.rpm/.apk/.ipk extensions, over a longer existing file, and with version/arch supplied through the process environment.",
   "File names never carry the epoch. Format detection of CLI output uses the harness decoders.",
   "4/C15"),
  "C16": ("exploration",
@@ -91,7 +91,7 @@ CHECKS = {
   "4/C16"),
  "C17": ("exploration",
   "runtime monitoring: the schema emitted by the built binary is compared with the published file, its key-path set with the parser's (reflection, exhaustive), and generated/enumerated documents that parse and build are validated by a harness subset validator and python jsonschema",
-  "Published file == `nfpm jsonschema -o` output (also when regenerated over an existing file); schema key paths == parser key paths (exhaustive); every documented enumerated value and generated valid configurations that the parser accepts and the packagers build must validate under two independent validators.",
+  "Published file == `nfpm jsonschema -o` output (also when regenerated over an existing file); schema key paths == parser key paths (exhaustive); every documented enumerated value and generated valid configurations that the parser accepts and the packagers build must validate under two independent validators; upper/mixed-case spellings of enumerated values are probes: if parser and packager accept one, the schema must too (one known finding: version_schema).",
   "Documents always carry name, arch and version (documented as required). Undocumented deb signature roles are not generated.",
   "4/C17"),
 }
